@@ -376,6 +376,17 @@ pub fn c08(ctx: &Ctx) -> PropResult {
         }
         cases.push(Case::new(Kind::Parse, format!("{a}\n{a}\n{a}\n")).tag("two-diagnostics"));
     }
+    // a rejected statement inside every pair of nested containers (the parser's scope bookkeeping must survive the
+    // early exit at every depth)
+    let containers = [("REPEAT 2 TIMES {", "}"), ("FOR EACH e IN l {", "}"), ("REPEAT UNTIL (x) {", "}"), ("PROCEDURE p() {", "}"), ("IF (x) {", "}"), ("{", "}"), ("IF (x) { } ELSE {", "}"), ("EXPORT PROCEDURE q(a) {", "}")];
+    for (o1, c1) in containers {
+        for (o2, c2) in containers {
+            for bad in ["x <- )", "BREAK BREAK", "RETURN 1 2", "1 <- 2", "IF (", "y <- # 1", "\"open", "PROCEDURE (", "f(1,, 2)", "x <- "] {
+                cases.push(Case::new(Kind::Parse, format!("{o1}\n{o2}\n{bad}\n{c2}\nBREAK\n{c1}\nCONTINUE\nRETURN 1\n")).tag("error-in-nested-containers"));
+                cases.push(Case::new(Kind::Parse, format!("{o1}\n{o2}\n{bad}\n")).tag("error-in-nested-containers"));
+            }
+        }
+    }
     // integer and decimal literals of every length around the machine word sizes
     for digits in [1usize, 9, 10, 15, 16, 17, 18, 19, 20, 21, 39, 40, 100, 308, 309, 310, 400] {
         for d in ["1", "9"] {
